@@ -104,6 +104,16 @@ def judge(rep, n, length, seed, wd, tag, owns, jobs=8, stats=None):
     return st
 
 
+def phase(rep, tier, seed, wd, owns, quick_n=250, thorough_n=5000):
+    """the standard whole-program phase of a property's check"""
+    q = tier == "quick"
+    st = judge(rep, quick_n if q else thorough_n, 12, seed, wd, "pg", owns, jobs=8 if q else 14)
+    if not q:
+        judge(rep, thorough_n // 4, 30, seed + 1, wd, "pl", owns, jobs=14, stats=st)
+    cov(rep, st)
+    return st
+
+
 def cov(rep, st):
     rep.cov["programs"] = {"programs_run_three_ways": st.programs, "steps_validated": st.steps, "events_validated": st.events,
                            "distinct_instruction_forms_executed": len(st.codes), "endings": st.endings,
